@@ -224,11 +224,11 @@ Announced(rows) == {rows[i].id : i \in {j \in 1..Len(rows) : rows[j].id # UserRo
      recreated-role-loses-history  a deleted role is created again: the named collection's channel history is dropped (amnesia)
      role-created-after-grant      a role's document-granted channels keep the granting documents' old sequences when the role
                                    comes into existence later (late) *)
-Jumped(PR, D, u, k, rows) ==          \* rows of the unlimited answer behind the position the client will resume from
+Jumped(PR, D, u, k, rows) ==          \* the page ends with such a row: rows of the unlimited answer behind the position the client resumes from
   LET full == Feed(PR, D, u, k, 0)
       n    == Len(rows)
       nk   == Norm(rows[n].tok)
-  IN IF n = 0 \/ n = Len(full) THEN {}
+  IN IF n = 0 \/ n = Len(full) \/ ~(rows[n].rv /\ rows[n].tok.t > 0 /\ rows[n].tok.s >= rows[n].tok.t) THEN {}
      ELSE {full[i].id : i \in {j \in (n + 1)..Len(full) : ~Before(nk, full[j].tok)}} \ {UserRow}
 PeriodsWithDeleted(PR, u, c) ==
   Periods(PR, u, c) \cup UNION {UNION {Isect(e[1], PR[u].rls[r], e[2], Inf) : e \in PR[r].chist[c]} :
